@@ -93,7 +93,8 @@ def main(modname, tier, replay, tag="gasan", tags=None):
         # a share of the cases is repeated on an uninstrumented build: ASan's quarantine keeps freed addresses from
         # being reused, and state that is keyed by an object's address only shows when they are; the thorough tier
         # also repeats a share under clang ASan+UBSan
-        tags = [tag, "casan", "plain"] if tier == "thorough" else [tag, "plain"]
+        # (unspecified evaluation order, char signedness and the like differ between compilers: clang in every tier)
+        tags = [tag, "casan", "plain", "cplain"] if tier == "thorough" else [tag, "plain", "casan"]
         import shutil
         if shutil.which("valgrind"):
             tags.append("memcheck")
@@ -114,7 +115,8 @@ def main(modname, tier, replay, tag="gasan", tags=None):
         jobs = []
         for tg in tags:
             # the first tag runs everything, further tags (other compilers) a share
-            share = n if tg == tags[0] else (max(1, n // 4) if tg != "memcheck" else (1 if tier == "quick" else 16))
+            share = n if tg == tags[0] else (max(1, n // (4 if tier == "thorough" or tg == "plain" else 8))
+                                             if tg != "memcheck" else (1 if tier == "quick" else 16))
             jobs += [(modname, tier, run.seed, c, n, tg, None) for c in range(share)]
     for part in optrun.pmap(_work, jobs):
         S.merge(part)
